@@ -32,25 +32,29 @@ def lit(ty, k):
 def derive_shapes(tier, seed):
     S = []
 
-    def shape(name, fields, vis="", remote=None, marks=None, attrs=None):
+    def shape(name, fields, vis="", remote=None, marks=None, attrs=None, sattrs=None):
         """attrs: {field: (lines before #[animate], lines after it)} - other attributes and doc comments on a field must not
-        change whether it counts as marked"""
+        change whether it counts as marked.  sattrs: (lines before, lines after) the struct's own #[animate(..)] attribute -
+        other attributes of the struct (lists like #[allow(..)] / #[repr(..)], doc comments) are none of the derive's business"""
         fs = [(n, t, (marks is not None and n in marks)) for (n, t) in fields]
-        S.append({"mod": name.lower(), "name": name, "fields": fs, "vis": vis, "remote": remote, "attrs": attrs or {}})
+        S.append({"mod": name.lower(), "name": name, "fields": fs, "vis": vis, "remote": remote, "attrs": attrs or {},
+                  "sattrs": sattrs or ([], [])})
 
     shape("D1", [("x", "f32")])
-    shape("D2", [("x", "f32"), ("n", "u8")])
+    shape("D2", [("x", "f32"), ("n", "u8")], sattrs=(["#[allow(dead_code)]"], []))
     shape("D3", [("a", "f32"), ("b", "u8"), ("c", "i32")], marks={"a", "c"})
     shape("D4", [("a", "f64"), ("b", "i16"), ("c", "u32")], marks={"a", "b", "c"})
     shape("D5", [("a", "f32"), ("b", "f64"), ("c", "u8"), ("d", "i16"), ("e", "i32"), ("f", "u32")])
     shape("D6", [("a", "f32"), ("b", "f64"), ("c", "u8"), ("d", "i16"), ("e", "i32"), ("f", "u32")], marks={"b", "d", "f"})
-    shape("D7", [("alpha", "f64"), ("size", "i16")], vis="pub", marks={"alpha"})
+    shape("D7", [("alpha", "f64"), ("size", "i16")], vis="pub", marks={"alpha"},
+          sattrs=(["/// A documented struct.", "#[repr(C)]"], ["#[allow(clippy::all)]"]))
     shape("D8", [("p", "u8"), ("q", "u8"), ("r", "f32"), ("s", "i32")], vis="pub(crate)", marks={"p", "q", "s"})
     shape("D9", [("t_x", "f32"), ("x", "f32")], marks={"t_x"})
     shape("P10", [("a", "f32"), ("c", "i32")],
           remote={"name": "R10", "fields": [("c", "i32"), ("extra", "String"), ("a", "f32"), ("z", "u8")], "path": "R10"})
     shape("P11", [("a", "f32"), ("c", "i32"), ("z", "u8")], marks={"c"},
-          remote={"name": "R11", "fields": [("z", "u8"), ("c", "i32"), ("label", "String"), ("a", "f32")], "path": "R11"})
+          remote={"name": "R11", "fields": [("z", "u8"), ("c", "i32"), ("label", "String"), ("a", "f32")], "path": "R11"},
+          sattrs=(["#[allow(dead_code)]"], ["/// Proxy for R11.", "#[allow(unused)]"]))
     shape("P12", [("v", "u32"), ("w", "f64")], vis="pub",
           remote={"name": "R12", "fields": [("w", "f64"), ("k", "i16"), ("v", "u32")], "path": "crate::remotes::R12",
                   "external_mod": True})
@@ -87,7 +91,11 @@ def derive_shapes(tier, seed):
                     pre = rnd.choice([[], ["/// documented"], ["#[allow(dead_code)]"], ["/// documented", "#[cfg(all())]"]])
                     post = rnd.choice([[], [], ["/// trailing doc"]]) if f in marks else []
                     attrs[f] = (pre, post)
-            shape(("P%d" if remote else "D%d") % i, fields, vis=vis, remote=remote, marks=marks, attrs=attrs)
+            sattrs = None
+            if rnd.random() < 0.3:
+                pool = ["#[allow(dead_code)]", "/// documented", "#[repr(C)]", "#[allow(unused)]", "#[cfg_attr(all(), allow(dead_code))]"]
+                sattrs = (rnd.sample(pool, rnd.randint(0, 2)), rnd.sample(pool, rnd.randint(0, 2)))
+            shape(("P%d" if remote else "D%d") % i, fields, vis=vis, remote=remote, marks=marks, attrs=attrs, sattrs=sattrs)
     return S
 
 
@@ -112,9 +120,15 @@ def derive_source(shapes):
                 out.append("    #[derive(Clone, Debug, Default, PartialEq)]")
                 out.append("    pub struct %s { %s }" % (r["name"], ", ".join("pub %s: %s" % f for f in r["fields"])))
             out.append("    #[derive(Animate)]")
+            for line in s.get("sattrs", ([], []))[0]:
+                out.append("    " + line)
             out.append("    #[animate(remote = \"%s\")]" % r["path"])
+            for line in s.get("sattrs", ([], []))[1]:
+                out.append("    " + line)
         else:
             out.append("    #[derive(Animate, Clone, Debug, Default, PartialEq)]")
+            for line in s.get("sattrs", ([], []))[0] + s.get("sattrs", ([], []))[1]:
+                out.append("    " + line)
         out.append("    %s struct %s {" % (s["vis"], s["name"]))
         for (n, t, m) in s["fields"]:
             pre, post = s.get("attrs", {}).get(n, ([], []))
